@@ -31,11 +31,11 @@ def plans(rng, nchildren, model):
     hs = [0, 1, 12345, "random", 7, 99, "random", 31337]
     for i in range(nchildren):
         out.append({"hashseed": hs[i % len(hs)], "conc": model["conc"], "model": model,
-                    "prior_events": rng.choice([0, 3, 50, 1000]), "prior_types": rng.choice([0, 2, 17]), "prior_strings": rng.choice([0, 10, 500]),
+                    "prior_events": rng.choice([0, 3, 50, 1000]), "prior_types": rng.choice([0, 2, 17]), "prior_strings": rng.choice([0, 10, 500]), "prior_draws": rng.choice([0, 1, 7]),
                     "pilot_replications": 1 if i % 3 == 1 else 0, "steps_first": 0,
                     "pauses": [rng.choice([1, 2, 3, 4, 6]) for _ in range(rng.choice([0, 1, 2, 4]))],
                     "bounds": [] if model["tc_listener"] else sorted([[rng.randrange(1, model["end_t"]), rng.random() < 0.5] for _ in range(rng.choice([0, 1, 2]))])})
-    out[0].update(pilot_replications=0, steps_first=0, pauses=[], bounds=[], prior_events=0, prior_types=0, prior_strings=0)   # the plain reference run
+    out[0].update(pilot_replications=0, steps_first=0, pauses=[], bounds=[], prior_events=0, prior_types=0, prior_strings=0, prior_draws=0)   # the plain reference run
     return out
 
 
